@@ -249,6 +249,12 @@ NP_STUBS: Dict[str, Any] = {
     "arange": lambda n, *a, **k: NArr(range(n)),
     "array_sum": lambda x, **k: NArr(x).sum(), "array_all": lambda x, **k: all(bool(v) for v in x), "array_any": lambda x, **k: any(bool(v) for v in x),
     "absolute": _map(abs),
+    "count_nonzero": lambda x, **k: sum(1 for v in x if bool(v)),
+    "invert": lambda x: ~NArr(x), "logical_xor": lambda a, b: NArr(bool(p) != bool(q) for p, q in zip(a, b)),
+    "nonzero": lambda c: (NArr(i for i, b in enumerate(c) if b),),
+    "argwhere": lambda c: NArr(i for i, b in enumerate(c) if b),
+    "copy": lambda x: NArr(x), "ones_like": lambda a, **k: NArr([1] * len(a)), "full_like": lambda a, v, **k: NArr([v] * len(a)),
+    "size": lambda x: len(x), "newaxis": None,
     "inf": math.inf, "nan": math.nan, "bool_": bool, "float64": float, "complex128": complex, "int64": int,
     "ComplexImpedance": complex, "Frequency": float,
 }
